@@ -1,36 +1,106 @@
-(* C01 — end-to-end call transparency through generated proxy and dispatcher. Statements only.
+(* C01 - end-to-end call transparency through generated proxy and dispatcher. Statements only.
 
    [call e sid_req sid_rsp max impl Fc Fs iface f args opts oneway id servant timeout] is the model of one call
    (Rpc/EndToEnd.v): generated proxy -> TarsInvoke + client filters -> packet codec, frame, receive loop ->
    Protocol.Invoke + server filters -> generated Dispatch -> implementation -> and back. It returns what the call
    site observes and the event log. [impl], the schema environment [e] and the filters are universally quantified.
 
-   Filter clause, envelope, error mapping, one-way: proved for every interface, every argument list, every
-   implementation, every combination of pass-through filters, with no hypothesis on the codec.
-   Value clause (return value, out parameters, response maps, the inputs of the implementation): PARTIAL - proved
-   under the named per-call hypotheses [wire_ok_req], [wire_ok_rsp], [args_roundtrip], [results_roundtrip], which say
-   that the codec model round-trips the packets, the argument list and the results of this very call (the
-   struct-level codec round trip of C03 is not a theorem of this development); Rpc/EndToEndExamples.v discharges
-   them for a concrete call by computation, and the correspondence evaluates them on every sampled call. *)
+   Filter clause: proved for every interface, every argument list, every implementation, every combination of
+   pass-through filters, with no hypothesis on the codec (the C01_filters theorems).
+   Value, error and one-way clauses:
+     - C01_..._outs_last_partial: proved with NO codec hypothesis (argument list, results and both packets go through
+       C03's struct-level round trip, the frame through C07's reassembly theorem) for every schema environment that is
+       well formed, every signature whose out parameters follow its in parameters, every well-typed argument and
+       result value of every IDL type, fresh out variables; values up to [norm] (identity except an optional scalar
+       struct member equal to its default: -0.0 comes back as +0.0). PARTIAL in: signatures with an in parameter after
+       an out parameter (the encoded out arguments would have to be shown skippable), static size conditions [sig_fine].
+     - C01_..._partial: every signature, under the named per-call hypotheses [wire_ok_req], [wire_ok_rsp],
+       [args_roundtrip], [results_roundtrip] (the codec round-trips this very call; evaluated on every sampled call by
+       the correspondence).
+     - C01_transparent_ok_statement (every signature, any content of the out variables, exact values) is REFUTED:
+       a pre-filled out variable keeps stale content (known finding; C01_prefilled_out_refuted). *)
 From Coq Require Import List NArith ZArith Bool.
-From TarsV Require Import Gen.Consts Base.Hex Codec.GenCodec Frame.Framing Rpc.Filters Rpc.FiltersProofs
-  Rpc.EndToEnd Rpc.EndToEndProofs Rpc.EndToEndConc Rpc.EndToEndCorr Rpc.EndToEndExamples.
+From TarsV Require Import Gen.Consts Gen.Schemas Base.Hex Codec.GenCodec Codec.RoundTrip Frame.Framing Rpc.Filters Rpc.FiltersProofs
+  Rpc.EndToEnd Rpc.EndToEndProofs Rpc.EndToEndConc Rpc.EndToEndCorr Rpc.EndToEndFull Rpc.EndToEndExamples.
 Import ListNotations.
 Open Scope N_scope.
 
-(* full statement of the value clause, without the codec hypotheses (kept visible; decided per sampled call by the
-   correspondence, not proved): a successful implementation's results arrive exactly, for every schema environment *)
+(* full statement of the value clause: every signature, any content of the caller's out variables, exact values *)
 Definition C01_transparent_ok_statement : Prop :=
-  forall e sid_req sid_rsp max impl (Pc Ps : pfilters ev unit) i f args o id sv t ret outs rc rs,
-    find_fn i (fs_name f) = Some f ->
-    impl (fs_name f) (ins_of f args) (ctx_of o) (status_of o) = IOk ret outs rc rs ->
-    ret_shape f ret ->
-    fst (call e sid_req sid_rsp max impl (filters_of inv_res Pc) (filters_of disp_res Ps) i f args o false id sv t) = COk ret outs (maps_after o rc rs).
+  forall e k n sid_req sid_rsp max impl (Pc Ps : pfilters ev unit) i f args o id sv t ret outs rc rs,
+    wf_schema k e -> (k <= 40)%nat ->
+    fields_of e sid_req = schema_requestf_RequestPacket -> fields_of e sid_rsp = schema_requestf_ResponsePacket ->
+    max < 4294967296 ->
+    let q := mkreq e f args o false id sv t in
+    find_fn i (fs_name f) = Some f -> sig_fine e k n f -> args_typed e (fs_args f) args ->
+    impl (fs_name f) (ins_of f args) (ctx_of o) (status_of o) = IOk ret outs rc rs -> ret_shape f ret ->
+    results_typed e f (results ret outs) ->
+    req_sendable e sid_req max q -> rsp_sendable e sid_rsp max (ok_reply e f q ret outs rc rs) ->
+    fst (call e sid_req sid_rsp max impl (filters_of inv_res Pc) (filters_of disp_res Ps) i f args o false id sv t)
+    = COk ret outs (maps_after o rc rs).
 
-(* success: the call site gets exactly the implementation's return value and out parameters, each map the caller
-   passed holds exactly the response context/status afterwards (a nil map stays nil); the implementation is called
-   exactly once, with exactly the caller's in arguments, context and status; each selected filter runs once, in
-   registration order; one reply *)
+(* refuted on the faithful model (and on the code: known finding e2e/out/prefilled-out-variable/...): the caller's
+   out variable of type Item holds nums = [1; -5000000000], the implementation sets nums = [], the caller reads the old nums *)
+Theorem C01_prefilled_out_refuted : ~ C01_transparent_ok_statement.
+Proof. exact EndToEndExamples.prefilled_out_refutes. Qed.
+
+(* success, no codec hypothesis: well-formed schemas (tags ascending, defaults on scalars, by-value nesting <= k), the
+   two packet schemas as regenerated from the code, a signature with outs after ins within the static size conditions,
+   well-typed arguments and results, fresh out variables, packets in range and within maxPackageLength. The call site
+   gets the implementation's return value and out parameters (normalised), each map the caller passed holds exactly the
+   response context/status; the implementation is called exactly once with the caller's in arguments (normalised),
+   context and status; each selected filter runs once, in registration order; one reply. *)
+Theorem C01_transparent_ok_outs_last_partial :
+  forall e k n sid_req sid_rsp max impl (Pc Ps : pfilters ev unit) i f args o id sv t ret outs rc rs,
+    wf_schema k e -> (k <= 40)%nat ->
+    fields_of e sid_req = schema_requestf_RequestPacket -> fields_of e sid_rsp = schema_requestf_ResponsePacket ->
+    max < 4294967296 ->
+    let q := mkreq e f args o false id sv t in
+    find_fn i (fs_name f) = Some f -> sig_ok e k n f ->
+    args_typed e (fs_args f) args -> outs_fresh e f args ->
+    impl (fs_name f) (ins_seen e f args) (ctx_of o) (status_of o) = IOk ret outs rc rs ->
+    results_typed e f (results ret outs) ->
+    req_sendable e sid_req max q -> rsp_sendable e sid_rsp max (ok_reply e f q ret outs rc rs) ->
+    call e sid_req sid_rsp max impl (filters_of inv_res Pc) (filters_of disp_res Ps) i f args o false id sv t =
+    (COk (ret_of f (results_seen e f ret outs)) (outs_from f (results_seen e f ret outs)) (maps_after o rc rs),
+     before Pc ++ [EInvoke] ++ before Ps ++ [EDispatch; EImpl (fs_name f) (ins_seen e f args) (ctx_of o) (status_of o)]
+       ++ after Ps ++ [EReply] ++ after Pc).
+Proof. intros e k n sid_req sid_rsp max impl Pc Ps i f args o id sv t ret outs rc rs Hwf Hk Hq Hp Hm. exact (EndToEndFull.transparent_ok_closed e k Hwf Hk sid_req sid_rsp Hq Hp max Hm n impl Pc Ps i f args o id sv t ret outs rc rs). Qed.
+
+(* failure, no codec hypothesis: code exact, message exact unless empty ([err_seen]) *)
+Theorem C01_transparent_err_outs_last_partial :
+  forall e k n sid_req sid_rsp max impl (Pc Ps : pfilters ev unit) i f args o id sv t c m,
+    wf_schema k e -> (k <= 40)%nat ->
+    fields_of e sid_req = schema_requestf_RequestPacket -> fields_of e sid_rsp = schema_requestf_ResponsePacket ->
+    max < 4294967296 ->
+    let q := mkreq e f args o false id sv t in
+    find_fn i (fs_name f) = Some f -> sig_ok e k n f -> args_typed e (fs_args f) args ->
+    impl (fs_name f) (ins_seen e f args) (ctx_of o) (status_of o) = IFail c m -> c <> 0%Z ->
+    req_sendable e sid_req max q -> rsp_sendable e sid_rsp max (err_reply q c m) ->
+    call e sid_req sid_rsp max impl (filters_of inv_res Pc) (filters_of disp_res Ps) i f args o false id sv t =
+    (err_seen c m,
+     before Pc ++ [EInvoke] ++ before Ps ++ [EDispatch; EImpl (fs_name f) (ins_seen e f args) (ctx_of o) (status_of o)]
+       ++ after Ps ++ [EReply] ++ after Pc).
+Proof. intros e k n sid_req sid_rsp max impl Pc Ps i f args o id sv t c m Hwf Hk Hq Hp Hm. exact (EndToEndFull.transparent_err_closed e k Hwf Hk sid_req sid_rsp Hq Hp max Hm n impl Pc Ps i f args o id sv t c m). Qed.
+
+(* one-way, no codec hypothesis: the implementation runs exactly once on the caller's inputs, no reply is written *)
+Theorem C01_oneway_outs_last_partial :
+  forall e k n sid_req sid_rsp max impl (Pc Ps : pfilters ev unit) i f args o id sv t,
+    wf_schema k e -> (k <= 40)%nat ->
+    fields_of e sid_req = schema_requestf_RequestPacket -> fields_of e sid_rsp = schema_requestf_ResponsePacket ->
+    max < 4294967296 ->
+    let q := mkreq e f args o true id sv t in
+    find_fn i (fs_name f) = Some f -> sig_ok e k n f -> args_typed e (fs_args f) args -> req_sendable e sid_req max q ->
+    call e sid_req sid_rsp max impl (filters_of inv_res Pc) (filters_of disp_res Ps) i f args o true id sv t =
+    (CSent,
+     before Pc ++ [EInvoke] ++ before Ps ++ [EDispatch; EImpl (fs_name f) (ins_seen e f args) (ctx_of o) (status_of o)]
+       ++ after Ps ++ [] ++ after Pc).
+Proof. intros e k n sid_req sid_rsp max impl Pc Ps i f args o id sv t Hwf Hk Hq Hp Hm. exact (EndToEndFull.oneway_closed e k Hwf Hk sid_req sid_rsp Hq max Hm n impl Pc Ps i f args o id sv t). Qed.
+
+(* success, every signature and any out variables, under the per-call codec hypotheses: the call site gets exactly the
+   implementation's return value and out parameters, each map the caller passed holds exactly the response
+   context/status afterwards (a nil map stays nil); the implementation is called exactly once, with exactly the
+   caller's in arguments, context and status; each selected filter runs once, in registration order; one reply *)
 Theorem C01_transparent_ok_partial : forall e sid_req sid_rsp max impl (Pc Ps : pfilters ev unit) i f args o id sv t ret outs rc rs,
     let q := mkreq e f args o false id sv t in
     find_fn i (fs_name f) = Some f ->
@@ -120,6 +190,10 @@ Theorem C01_concurrent_partial : forall e sid_req sid_rsp max impl (Ps : pfilter
     forall q, In q qs -> client_conn e sid_rsp max chunks_p (q_id q) = srv_reply e impl i q.
 Proof. exact EndToEndConc.concurrent. Qed.
 
+Print Assumptions C01_prefilled_out_refuted.
+Print Assumptions C01_transparent_ok_outs_last_partial.
+Print Assumptions C01_transparent_err_outs_last_partial.
+Print Assumptions C01_oneway_outs_last_partial.
 Print Assumptions C01_transparent_ok_partial.
 Print Assumptions C01_transparent_err_partial.
 Print Assumptions C01_oneway_partial.
